@@ -645,10 +645,22 @@ func checkEventLevels(senderLevel int64, oldPowerLevels, newPowerLevels PowerLev
 	const (
 		isStateEvent = false
 	)
+	// The entries of the "events" map themselves are compared. EventLevel is not
+	// used because it answers m.room.third_party_invite with the invite level
+	// whatever the map says, which would let anybody rewrite that entry.
+	eventsEntry := func(c PowerLevelContent, eventType string) int64 {
+		if level, ok := c.Events[eventType]; ok {
+			return level
+		}
+		if isStateEvent {
+			return c.StateDefault
+		}
+		return c.EventsDefault
+	}
 	for eventType := range newPowerLevels.Events {
 		levelChecks = append(levelChecks, levelPair{
-			oldPowerLevels.EventLevel(eventType, isStateEvent),
-			newPowerLevels.EventLevel(eventType, isStateEvent),
+			eventsEntry(oldPowerLevels, eventType),
+			eventsEntry(newPowerLevels, eventType),
 		})
 	}
 
@@ -657,8 +669,8 @@ func checkEventLevels(senderLevel int64, oldPowerLevels, newPowerLevels PowerLev
 	// the new levels. But it doesn't hurt to run the checks twice for the same level.
 	for eventType := range oldPowerLevels.Events {
 		levelChecks = append(levelChecks, levelPair{
-			oldPowerLevels.EventLevel(eventType, isStateEvent),
-			newPowerLevels.EventLevel(eventType, isStateEvent),
+			eventsEntry(oldPowerLevels, eventType),
+			eventsEntry(newPowerLevels, eventType),
 		})
 	}
 
